@@ -250,7 +250,7 @@ func (e *Exec) threadMain(t *Thread, body func(), isRoot bool) {
 			}
 			buf := make([]byte, 16384)
 			buf = buf[:runtime.Stack(buf, false)]
-			e.res.Panic = fmt.Sprint(r)
+			e.res.Panic = fmt.Sprintf("panic(%#v)", r)
 			e.res.PanicStack = trimStack(string(buf))
 			t.exited = true
 			t.kind = opNone
